@@ -1,6 +1,7 @@
 """C14 -- datagram messages are reassembled exactly or not at all."""
 import json
-from vlib import Ctx, main_wrap, pick
+import os
+from vlib import Ctx, Inconclusive, main_wrap, pick, SPEC
 
 CFG_TMPL = """SPECIFICATION Spec
 CONSTANTS
@@ -38,6 +39,70 @@ def gen(ctx, lens, ticks, bad, name):
     return scs
 
 
+DG_GEN_CFG = """SPECIFICATION Spec
+CONSTANTS
+  MaxWrites = %(writes)d
+  MaxSegs = 3
+  RollbackSeq = FALSE
+  Reorder = FALSE
+  GenCanon = TRUE
+INVARIANTS ExactOrNothing AtMostOnce FailedNeverDelivered AllDelivered FreshSeq TableConsistent
+CONSTRAINT GenPrint
+CHECK_DEADLOCK FALSE
+"""
+DG_SITES = ("datagram", "transport", "alt")
+
+
+def dgram_part(ctx):
+    """Transport level: the sending sites of transport/quic (datagram.Write, Transport.WriteUnreliable: sequence number
+    allocation + segment.SendTo) and the receive plumbing of quic.Transport, two real transports back to back."""
+    ctx.assumptions += [
+        "transport level (DgramLink.tla): two quic.Transport values over an in-memory quic-go Connection, in-order and loss-free; "
+        "a scripted SendDatagram call of a write returns quic-go's DatagramTooLargeError; one writer goroutine; "
+        "scenarios last milliseconds (read-buffer expiry 10 s is not reached); message n = (segs-1)*1188+594 bytes of value n",
+    ]
+    # L1: all writes (1..3 segments, every failing SendDatagram call or none) interleaved with the receiver goroutine
+    ctx.l1("DgramLink", "DgramLink_q.cfg")
+    ctx.l1("DgramLink", "DgramLink_qr.cfg")           # datagrams may overtake each other
+    if not ctx.quick():
+        ctx.l1("DgramLink", "DgramLink_t.cfg", timeout=1200)
+        ctx.l1("DgramLink", "DgramLink_tr.cfg", timeout=1200)
+    # sensitivity: the variant that hands the sequence number of a failed write back must break ExactOrNothing
+    rs = ctx.l1("DgramLink", "DgramLink_rb.cfg", must_hold=False)
+    if rs.violated != "ExactOrNothing":
+        raise Inconclusive("the RollbackSeq variant of DgramLink does not violate ExactOrNothing (got %s)" % (rs.violated or rs.error))
+    ctx.notes.append("L1 DgramLink_rb.cfg (RollbackSeq=TRUE: a failed write hands its sequence number back) violates ExactOrNothing "
+                     "as expected: the next message shares the table entry of the segments that already went out")
+    # every complete environment script (write k: size, failing call or none; final drain)
+    cfg = "DgramLink_gen_%d.cfg" % os.getpid()
+    with open(os.path.join(SPEC, cfg), "w") as f:
+        f.write(DG_GEN_CFG % dict(writes=3 if ctx.quick() else 4))
+    try:
+        r = ctx.l1("DgramLink", cfg, timeout=600)
+    finally:
+        os.remove(os.path.join(SPEC, cfg))
+    scripts = sorted((json.loads(s[7:]) for s in r.printed if isinstance(s, str) and s.startswith("SCRIPT ")),
+                     key=lambda st: (len(st), json.dumps(st, sort_keys=True)))
+    if not scripts:
+        raise Inconclusive("DgramLink generator printed no script")
+    scs = []
+    for site in DG_SITES:
+        for k, steps in enumerate(scripts):
+            # h.Step has no segs / failAt fields: the component reads the script from the free-form parameters
+            scs.append({"id": "C14/dgram/%s/%d" % (site, k), "kind": "dgram", "p": {"site": site, "script": steps}, "steps": steps})
+    ctx.harness_cmd = "vhdgram"
+    ctx.vh = None
+    try:
+        trace = ctx.run_scenarios(scs, "c14dgram", par=8)
+    finally:
+        ctx.harness_cmd = "vh"
+        ctx.vh = None
+    verdicts, r = ctx.validate(trace, "MonC14d", consts={"MaxWrites": 9, "MaxSegs": 9, "RollbackSeq": "FALSE", "Reorder": "FALSE",
+                                                         "GenCanon": "FALSE"})
+    ctx.judge(scs, trace, verdicts)
+    return len(scripts)
+
+
 def run():
     ctx = Ctx("C14")
     ctx.assumptions += [
@@ -71,9 +136,14 @@ def run():
     trace = ctx.run_scenarios(scs, "c14", par=4)
     verdicts, r = ctx.validate(trace, "MonC14", consts={"P": 1188, "Expiry": 1, "MaxTicks": 9, "MaxBad": 9, "MaxSegIdx": 65535, "GenCanon": "FALSE"})
     ctx.judge(scs, trace, verdicts)
+    nscripts = dgram_part(ctx)
     ctx.finish(rule="scenarios = every complete path (send / deliver in every order / lose every subset / tick / gc / malformed) "
                     "of the generator configurations of Segment.tla, replayed lock-step on segment.SendTo and ReadBuffers; "
-                    "non-trivial = scenario whose trace was consumed completely by the monitor with a verdict",
+                    "plus every complete environment script of DgramLink.tla (%d scripts: <= %d writes of 1..3 segments, each with "
+                    "every failing SendDatagram call or none, final drain) x sending site (datagram.Write, Transport.WriteUnreliable, "
+                    "alternating) replayed on two real quic.Transport values back to back and judged by MonC14d; "
+                    "non-trivial = scenario whose trace was consumed completely by the monitor with a verdict"
+                    % (nscripts, 3 if ctx.quick() else 4),
                exhaustive=not ctx.quick())
 
 
